@@ -36,3 +36,25 @@ def tasks(tier):
 
 def run(hname, cfg, tier, seed):
     return vhdx.read_task("C03", cfg, tier, seed)
+
+
+def precheck(tier, seed):
+    import io
+
+    from dissect.hypervisor.disk.vhdx import VHDX
+    from harness import fixtures
+    from oracles import vhdx as spec
+
+    errors, traces = [], 0
+    for rel in ("fixed.vhdx.gz", "dynamic.vhdx.gz"):
+        data = fixtures.load_gz(rel)
+        obj = VHDX(io.BytesIO(data))
+        mem = fixtures.mem_of(data)
+
+        def real(off, ln, obj=obj):
+            obj.seek(off)
+            return obj.read(ln)
+
+        traces += fixtures.compare(rel, real, lambda g: spec.guest_byte(g, obj.bat.offset, obj.block_size, obj.sector_size, mem),
+                                   obj.size, (obj.block_size,), seed, errors)
+    return dict(errors=errors, traces=traces, summary="oracle == real reader on fixed.vhdx and dynamic.vhdx (tests/data)")
